@@ -672,13 +672,24 @@ def install(I, mkcls, meth):
         return reduce_axis(i, arr, axis, lambda xs: scalar_op(i, ast.Div(), reduce_sum(i, xs), float(len(xs))))
     E["numpy.mean"] = E["numpy.average"]
 
+    @reg("argmin")
+    def _argmin(i, a, k):
+        arr = asarray(i, a[0])
+        if len(arr.tail) != 1 or k.get("axis") is not None:
+            raise Unsupported("np.argmin on >1-d arrays")
+        best, bj = arr.data[0], 0
+        for j, x in enumerate(arr.data[1:], 1):
+            if i.st.branch(i.compare(ast.Lt(), x, best), "argmin"):
+                best, bj = x, j
+        return bj
+
     reg("any")(lambda i, a, k: METHODS["any"](i, asarray(i, a[0]), [], {}))
     reg("all")(lambda i, a, k: METHODS["all"](i, asarray(i, a[0]), [], {}))
     reg("isnan")(lambda i, a, k: is_nan(a[0]) if not isinstance(a[0], NdArr) else mk(_map(a[0].data, is_nan), "bool"))
     reg("radians")(lambda i, a, k: i.binop(ast.Mult(), a[0], math.pi / 180))
     reg("allclose")(lambda i, a, k: (_ for _ in ()).throw(Unsupported("np.allclose")))
     for fn in ("arctan2", "arccos", "arctan", "sin", "cos", "linalg.svd", "linalg.inv", "random.rand", "linspace", "meshgrid",
-               "column_stack", "frombuffer", "fromiter", "argmin", "take", "max", "arange"):
+               "column_stack", "fromiter", "take", "max", "arange"):
         E.setdefault(f"numpy.{fn}", Builtin(f"np.{fn}", (lambda name: lambda i, a, k: i.np_hook(name, a, k))(fn), T))
 
     def _frombuffer(i, a, k):
